@@ -22,6 +22,7 @@ extern void (*tmcg_verif_shash_hook)(const std::string &input, mpz_srcptr output
 
 static Mpz GP, GQ, GG, GK, GP1;     // current group, p-1
 static size_t LQ = 0;                // byte length of a srandomm(q) draw
+static size_t LE = 0, EBITS = 0;     // byte length / bits of a shortened-exponent draw (quadratic-residue class), 0 = none
 static json hcalls;                 // oracle calls of the current op
 
 static json num(mpz_srcptr v) {     // a transmitted value as the spec sees it
@@ -73,6 +74,7 @@ static json coins() {               // the draws of the last call, classified by
 	for (size_t k = 0; k < lg.size(); k++) {
 		json c;
 		if (lg[k].len == LQ) { Mpz v(lg[k].hex, 16); mpz_mod(v, v, GQ); c["k"] = "q"; c["v"] = v.l(); }
+		else if (LE && lg[k].len == LE) { Mpz v(lg[k].hex, 16); mpz_tdiv_r_2exp(v, v, EBITS); c["k"] = "q"; c["v"] = v.l(); c["short"] = true; }
 		else if (lg[k].len == 8) {
 			unsigned long w = 0; unsigned char b[8];
 			for (int i = 0; i < 8; i++) b[i] = (unsigned char)strtoul(lg[k].hex.substr(2 * i, 2).c_str(), NULL, 16);
@@ -164,19 +166,28 @@ static World *start(std::ofstream &out, const json &s) {
 	mpz_sub_ui(GP1, GP, 1);
 	LQ = (mpz_sizeinbase(GQ, 2) + 64 + 7) / 8;
 	w->np = s["np"]; w->w = s["w"];
+	// kind of group object: "plain" Schnorr group with a given generator, "canon" the same class with the verifiably
+	// derived generator (canonical_g), "qr" the quadratic-residue class with exponents shortened to E bits
+	std::string kind = s.contains("kind") ? s["kind"].get<std::string>() : "plain";
+	size_t E = s.contains("E") ? s["E"].get<size_t>() : 0;
+	LE = (kind == "qr" && E < mpz_sizeinbase(GP, 2)) ? (E + 7) / 8 : 0; EBITS = E;
 	std::ostringstream grp; grp << (mpz_srcptr)GP.v << std::endl << (mpz_srcptr)GQ.v << std::endl << (mpz_srcptr)GG.v << std::endl << (mpz_srcptr)GK.v << std::endl;
 	for (size_t i = 0; i < w->np; i++) {
 		Player p;
 		std::istringstream is(grp.str());
-		p.vt = new BarnettSmartVTMF_dlog(is, mpz_sizeinbase(GP, 2), mpz_sizeinbase(GQ, 2), false, true);
+		if (kind == "qr") p.vt = new BarnettSmartVTMF_dlog_GroupQR(is, mpz_sizeinbase(GP, 2), E);
+		else p.vt = new BarnettSmartVTMF_dlog(is, mpz_sizeinbase(GP, 2), mpz_sizeinbase(GQ, 2), kind == "canon", true);
 		p.tm = new SchindelhauerTMCG(4, w->np, w->w);
 		w->pl.push_back(p); w->have.push_back(std::set<size_t>());
 	}
-	json ev; ev["e"] = "Reset"; ev["grp"] = s["grp"]; ev["np"] = w->np; ev["w"] = w->w;
+	if (kind == "qr") GG = Mpz(mpz2l(w->pl[0].vt->g));      // the class shifts the generator itself
+	json ev; ev["e"] = "Reset"; ev["np"] = w->np; ev["w"] = w->w;
+	ev["grp"] = {GP.l(), GQ.l(), GG.l(), GK.l()}; ev["kind"] = kind; ev["E"] = E;
+	begin_op();
 	ev["okgrp"] = w->pl[0].vt->CheckGroup(); ev["hbits"] = tmcg_mpz_shash_len() * 8;
 	if (s.contains("src")) ev["src"] = s["src"];
-	begin_op();
 	w->emit(ev);
+	begin_op();
 	return w;
 }
 static void finish(World *w) {
@@ -501,6 +512,36 @@ static json random_schedule(unsigned long seed, long x) {
 	long p = GROUPS[gi][0], q = GROUPS[gi][1], k = GROUPS[gi][3];
 	long g = small_gen(p, q, k);
 	if (gi == 0) g = 2;
+	// one execution in four runs in another admissible kind of group (C01: "Schnorr group with random or canonical
+	// generator, quadratic-residue group with shortened exponents")
+	size_t kindsel = rnd(8);
+	if (kindsel == 0) {
+		// quadratic-residue class: p = 2q + 1, p = 7 mod 8, exponents of E bits (E < |p|: shortened; E = |p|: full size)
+		static const long QRP[] = {719, 863, 1439, 2039, 2063, 4079, 8447, 16487, 32843, 44687, 46199};
+		for (;;) { p = QRP[rnd(11)]; Mpz P(p); if (mpz_probab_prime_p(P, 20) && p % 8 == 7) { Mpz Q((p - 1) / 2); if (mpz_probab_prime_p(Q, 20)) break; } }
+		q = (p - 1) / 2; k = 2; g = 2;
+		size_t pb = 0; for (long t = p; t; t >>= 1) pb++;
+		size_t E = 9 + rnd(pb - 8);              // 9..|p| (at least 9 bits: a shortened draw is two octets long)
+		s["kind"] = "qr"; s["E"] = E;
+	} else if (kindsel == 1) {
+		// the verifiably derived generator (canonical_g): candidates H(U)^k with U = "LibTMCG|p|q|ggen|" extended by every
+		// candidate tried, as the generating constructor does (that constructor itself is not used here: its prime search
+		// need not terminate for sizes this small); the specification re-derives g from the oracle calls CheckGroup makes
+		{
+			Mpz P(p), Q(q), K(k), P1(p - 1), bar, G, t;
+			std::stringstream U; U << "LibTMCG|" << (mpz_srcptr)P.v << "|" << (mpz_srcptr)Q.v << "|ggen|";
+			void (*saved)(const std::string &, mpz_srcptr) = tmcg_verif_shash_hook; tmcg_verif_shash_hook = 0;
+			do {
+				tmcg_mpz_shash(bar, U.str());
+				mpz_powm(G, bar, K, P);
+				U << (mpz_srcptr)G.v << "|";
+				mpz_powm(t, G, Q, P);
+			} while (!mpz_cmp_ui(G.v, 0L) || !mpz_cmp_ui(G.v, 1L) || !mpz_cmp(G, P1) || mpz_cmp_ui(t.v, 1L));
+			tmcg_verif_shash_hook = saved;
+			g = G.l();
+		}
+		s["kind"] = "canon";
+	}
 	s["grp"] = {p, q, g, k};
 	size_t np = 1 + rnd(F.maxnp);
 	size_t wmax = 1; while (((size_t)1 << (wmax + 1)) <= (size_t)q && wmax < 4) wmax++;
